@@ -23,7 +23,7 @@ Example C03_net_no_reply_reads_recycled_command_nonvacuous :
   In (1, 10) (out (run discipline_cfg init witness)) /\ In (1, 10) (out (run repaired_cfg init witness)).
 Proof. vm_compute. intuition. Qed.
 
-(* The code (UnLock frees the removed hold's command onto the releaser's free list while its grant reply may still
+(* The code before /repo 9866a3d (UnLock frees the removed hold's command onto the releaser's free list while its grant reply may still
    be in flight; replies read the shared object): connection 1 receives a frame with RequestId 22, which only
    connection 2 ever sent, and never a frame for its own request 10. *)
 Theorem C03_net_unlock_first_recycles_in_flight_command_refuted :
